@@ -205,9 +205,11 @@ def wiring_of_config(tree, config, name="", ini=""):
     return {"name": name, "ini": ini, "labels": labels, "taggers": taggers}
 
 
-def read_config(path, overrides=None):
+def read_config(path, overrides=None, text=None):
     config = configparser.ConfigParser()
-    if not config.read(path):
+    if text is not None:                      # harness-built configuration handed over as text (harness/genconfigs.py)
+        config.read_string(text)
+    elif not config.read(path):
         raise TranslationError(f"cannot read {path}")
     for sec, kv in (overrides or {}).items():          # same rule as harness/runtrace.py: build
         if not config.has_section(sec):
